@@ -40,6 +40,10 @@ let () =
           let ((lit, sev), rest) = P21Str.string_read (bytes_of_string data) in
           let hx = String.concat "" (Stdlib.List.map (fun b -> Printf.sprintf "%02x" (int_of_n b)) lit) in
           Printf.printf "T %d %s %d %d\n" (if hx = "" then 0 else 1) (if hx = "" then "-" else hx) (int_of_z sev) (Stdlib.List.length rest)
+        | 'K' ->
+          (match P21Skip.skip_inst (bytes_of_string data) with
+           | Some rest -> Printf.printf "K 1 - 3 %d\n" (Stdlib.List.length rest)
+           | None -> Printf.printf "K 0 - E\n")
         | 'Y' ->
           let ((v, sev), s) = P21Bin.read_binary s0 nul true in
           Printf.printf "Y %d %s %d %d %d %d\n" (match v with Some _ -> 1 | None -> 0)
